@@ -22,6 +22,7 @@ var c17CancelKinds = []string{
 	"auto-deadline",             // an auto-commit statement under a deadline that a slow server outlives
 	"auto-panic",                // an auto-commit statement under which something panics
 	"auto-cancel-before",        // an auto-commit statement under a context that is cancelled already
+	"explicit-slow",             // nothing fails: a local transaction that takes longer than the two-phase hold time
 }
 
 func runC17Cancelled(c *Ctx) {
@@ -35,7 +36,11 @@ func runC17Cancelled(c *Ctx) {
 			}
 			table := w.NewTableName("xag")
 			w.Eng.CreateTable(memdb.TableDef{Name: table, Cols: []memdb.Column{{Name: "id", Type: memdb.TBigInt}, {Name: "n", Type: memdb.TBigInt, Nullable: true}}, PK: []string{"id"}})
-			w.Eng.InsertRows(table, memdb.Row{int64(1), int64(0)})
+			w.Eng.InsertRows(table, memdb.Row{int64(1), int64(0)}, memdb.Row{int64(2), int64(0)})
+			nextID := 1
+			if kind == "explicit-slow" {
+				nextID = 2 // (row 1 belongs to the prepared branch)
+			}
 			w.coord.ResetLog()
 			w.Eng.ResetJournal()
 			q := "UPDATE " + table + " SET n = 7 WHERE id = ?"
@@ -99,6 +104,22 @@ func runC17Cancelled(c *Ctx) {
 							if pn := safeCall(func() { _, firstErr = exec(ctx, q, 1) }); pn != "" {
 								firstErr = fmt.Errorf("panic: %s", pn)
 							}
+						case "explicit-slow":
+							tx, err := begin(ctx, nil)
+							if err != nil {
+								firstErr = err
+								return
+							}
+							if _, firstErr = tx.ExecContext(ctx, q, 1); firstErr == nil {
+								time.Sleep(1600 * time.Millisecond) // (the hold time of a PREPARED branch is one second)
+								if _, firstErr = tx.ExecContext(ctx, "UPDATE "+table+" SET n = n + 1 WHERE id = ?", 1); firstErr == nil {
+									firstErr = tx.Commit()
+								}
+							}
+							if firstErr != nil {
+								tx.Rollback()
+							}
+							return
 						case "auto-cancel-before":
 							cctx, cancel := context.WithCancel(ctx)
 							cancel()
@@ -111,7 +132,7 @@ func runC17Cancelled(c *Ctx) {
 					// the next statement of the global transaction, on whatever connection the pool gives: the row is free
 					nctx, ncancel := context.WithTimeout(ctx, 3*time.Second)
 					defer ncancel()
-					_, nextErr = xa.ExecContext(nctx, "UPDATE "+table+" SET n = 9 WHERE id = ?", 1)
+					_, nextErr = xa.ExecContext(nctx, "UPDATE "+table+" SET n = 9 WHERE id = ?", nextID)
 					return nil
 				})
 			})
@@ -144,7 +165,11 @@ func runC17Cancelled(c *Ctx) {
 			if crash != "" {
 				fail("crash", crash)
 			}
-			if firstErr == nil {
+			if kind == "explicit-slow" {
+				if firstErr != nil {
+					fail("error_without_fault", firstErr.Error())
+				}
+			} else if firstErr == nil {
 				fail("failure_not_returned", kind)
 			}
 			for _, b := range w.coord.RegisteredBranches(xid) {
@@ -161,7 +186,7 @@ func runC17Cancelled(c *Ctx) {
 			}
 			if nextErr != nil {
 				fail("next_statement_refused", nextErr.Error())
-			} else if !strings.Contains(final, "i1,i9") {
+			} else if !strings.Contains(final, fmt.Sprintf("i%d,i9", nextID)) {
 				fail("next_statement_lost", final)
 			}
 			if len(w.Eng.OpenTxns()) > 0 {
